@@ -266,7 +266,8 @@ def closure_projection(model, cross_check=False) -> dict:
     used, bad = used_amplitude_keys(model.intensity)
     defined = {}
     for a, expr in model.amplitudes.items():
-        defined[str(_key_of_indexed(a))] = (a, expr)
+        if _key_of_indexed(a) is not None:
+            defined[str(_key_of_indexed(a))] = (a, expr)
     amp_atoms = {a: sp.Integer(1) for a in model.intensity.atoms(sp.Indexed) if str(a.base).startswith("A^")}
     free = set(model.intensity.xreplace(amp_atoms).free_symbols)
     for k in used:
@@ -299,7 +300,9 @@ def closure_projection(model, cross_check=False) -> dict:
         "kin_deps": kin_deps,
         "momenta": momenta,
         "used": used,
-        "defined": [_key_of_indexed(a) for a in model.amplitudes],
+        "defined": [k for k in (_key_of_indexed(a) for a in model.amplitudes) if k is not None],
+        "symbolic_defs": sum(1 for a in model.amplitudes if _key_of_indexed(a) is None),   # definitions whose indices are not numbers
+
         "unbound_index": len(bad),
     }
 
